@@ -146,6 +146,7 @@ fn cases_large(_rng: &mut Rng, sink: &mut dyn FnMut(J) -> bool) {
             let mut cfg = Cfg::simple(claims.clone(), Strategy::AllLevels).variant(k);
             cfg.holder = if k % 2 == 0 { Some("es256".into()) } else { None };
             cfg.decoys = false;
+            cfg.format = "json".into();
             let sel = J::Object(select_all(&claims));
             let mut c = cfg.to_json();
             c["kind"] = json!("presented");
